@@ -11,18 +11,22 @@ package interceptor
 
 import (
 	"bufio"
+	"bytes"
 	"context"
 	"encoding/json"
 	"fmt"
 	"os"
+	"reflect"
 	"strings"
 	"testing"
 
+	"github.com/gogo/status"
+	history122 "github.com/temporalio/s2s-proxy/proto/1_22/api/history/v1"
 	commonpb "go.temporal.io/api/common/v1"
 	"go.temporal.io/api/enums/v1"
+	failurepb "go.temporal.io/api/failure/v1"
 	historypb "go.temporal.io/api/history/v1"
 	"go.temporal.io/server/common/log"
-	"github.com/gogo/status"
 	"google.golang.org/grpc"
 	"google.golang.org/grpc/codes"
 	"google.golang.org/grpc/metadata"
@@ -48,15 +52,16 @@ type vobOblig struct {
 	Reached bool     `json:"reached"`
 	Skipped bool     `json:"skipped"`
 	InBlob  bool     `json:"inblob"`
-	Value   string   `json:"value"` // namespace name to put at the leaf (ns) / unused (sa)
-	Mode    string   `json:"mode"`  // "" = translation; "acl" = translation followed by the access-control interceptor
-	Bypass  bool     `json:"bypass"` // request carries the translation-bypass header
+	Value   string   `json:"value"`   // namespace name to put at the leaf (ns) / unused (sa)
+	Mode    string   `json:"mode"`    // "" = translation; "acl" = translation followed by the access-control interceptor
+	Bypass  bool     `json:"bypass"`  // request carries the translation-bypass header
+	Variant string   `json:"variant"` // "" | "tail" | "dirty" | "fill" (sibling namespace fields hold an unmapped name)
 }
 
 const (
 	vobNsLocal, vobNsRemote = "ns-local", "ns-remote"
 	vobSaLocal, vobSaRemote = "sa-local", "sa-remote"
-	vobSaOther               = "sa-unmapped"
+	vobSaOther              = "sa-unmapped"
 )
 
 func vobNew(full string) (protoreflect.Message, error) {
@@ -75,6 +80,67 @@ func vobPayload(s string) *commonpb.Payload {
 // vobFill: when non-empty, every other namespace-name field (descriptor rule) of the messages along the path is set to it,
 // so that an access-control verdict is decided by the leaf under test and not by empty sibling names.
 var vobFill string
+
+// vobTail: every events list on the path gets a skippable event before and after the event under test (a batch must not be
+// judged by its last event). vobDirty: every event blob on the path also holds a failure message with invalid UTF-8, so the
+// blob goes through the repair path before it is translated.
+var vobTail, vobDirty bool
+
+const vobDirtyMark = "dirty@#@#"
+
+// vobLegacyHas: does the path below a history blob exist in the legacy (1.22) schema? Blobs that need UTF-8 repair were written
+// by a server of that vintage and hold nothing else, so the "dirty" variant is only meaningful for those paths. Walks the legacy
+// Go structs by their protobuf tag names (not the proxy's conversion code).
+func vobLegacyHas(path []string) bool {
+	t := reflect.TypeOf(history122.History{})
+	for _, name := range path {
+		nt, ok := vobLegacyChild(t, name)
+		if !ok {
+			return false
+		}
+		t = nt
+	}
+	return true
+}
+
+func vobLegacyChild(t reflect.Type, name string) (reflect.Type, bool) {
+	for t.Kind() == reflect.Ptr || t.Kind() == reflect.Slice || t.Kind() == reflect.Map {
+		t = t.Elem()
+	}
+	if t.Kind() != reflect.Struct {
+		return nil, false
+	}
+	has := func(st reflect.Type) (reflect.Type, bool) {
+		for i := 0; i < st.NumField(); i++ {
+			for _, part := range strings.Split(st.Field(i).Tag.Get("protobuf"), ",") {
+				if part == "name="+name {
+					return st.Field(i).Type, true
+				}
+			}
+		}
+		return nil, false
+	}
+	if ft, ok := has(t); ok {
+		return ft, true
+	}
+	if m, ok := reflect.PtrTo(t).MethodByName("XXX_OneofWrappers"); ok {
+		out := m.Func.Call([]reflect.Value{reflect.Zero(reflect.PtrTo(t))})
+		for _, w := range out[0].Interface().([]interface{}) {
+			if ft, ok := has(reflect.TypeOf(w).Elem()); ok {
+				return ft, true
+			}
+		}
+	}
+	return nil, false
+}
+
+func vobPlainEvent(id int64) *historypb.HistoryEvent {
+	return &historypb.HistoryEvent{EventId: id, EventType: enums.EVENT_TYPE_WORKFLOW_TASK_SCHEDULED,
+		Attributes: &historypb.HistoryEvent_WorkflowTaskScheduledEventAttributes{WorkflowTaskScheduledEventAttributes: &historypb.WorkflowTaskScheduledEventAttributes{Attempt: 1}}}
+}
+
+// vobSaKeys: the keys put into a search-attribute container
+var vobSaKeys = []string{vobSaLocal, vobSaOther}
 
 func vobBuild(m protoreflect.Message, path []string, leafKind, value string) error {
 	md := m.Descriptor()
@@ -109,11 +175,14 @@ func vobBuild(m protoreflect.Message, path []string, leafKind, value string) err
 		case strings.HasPrefix(leafKind, "sa"):
 			if fd.IsMap() {
 				mp := m.Mutable(fd).Map()
-				for _, k := range []string{vobSaLocal, vobSaOther} {
+				for _, k := range vobSaKeys {
 					mp.Set(protoreflect.ValueOfString(k).MapKey(), protoreflect.ValueOfMessage(vobPayload("v-"+k).ProtoReflect()))
 				}
 			} else {
-				sa := &commonpb.SearchAttributes{IndexedFields: map[string]*commonpb.Payload{vobSaLocal: vobPayload("v-" + vobSaLocal), vobSaOther: vobPayload("v-" + vobSaOther)}}
+				sa := &commonpb.SearchAttributes{IndexedFields: map[string]*commonpb.Payload{}}
+				for _, k := range vobSaKeys {
+					sa.IndexedFields[k] = vobPayload("v-" + k)
+				}
 				m.Set(fd, protoreflect.ValueOfMessage(sa.ProtoReflect()))
 			}
 		}
@@ -124,9 +193,18 @@ func vobBuild(m protoreflect.Message, path []string, leafKind, value string) err
 		if err := vobBuild(hist, path[2:], leafKind, value); err != nil {
 			return err
 		}
-		blob, err := serializer.SerializeEvents(hist.Interface().(*historypb.History).Events)
+		evs := hist.Interface().(*historypb.History).Events
+		if vobDirty {
+			evs = append(evs, &historypb.HistoryEvent{EventId: 99, EventType: enums.EVENT_TYPE_WORKFLOW_TASK_FAILED,
+				Attributes: &historypb.HistoryEvent_WorkflowTaskFailedEventAttributes{WorkflowTaskFailedEventAttributes: &historypb.WorkflowTaskFailedEventAttributes{
+					Failure: &failurepb.Failure{Message: vobDirtyMark}}}})
+		}
+		blob, err := serializer.SerializeEvents(evs)
 		if err != nil {
 			return err
+		}
+		if vobDirty {
+			blob.Data = bytes.ReplaceAll(blob.Data, []byte("@#@#"), []byte{0xff, 0xfe, 0xff, 0xfe})
 		}
 		if fd.IsList() {
 			m.Mutable(fd).List().Append(protoreflect.ValueOfMessage(blob.ProtoReflect()))
@@ -137,8 +215,18 @@ func vobBuild(m protoreflect.Message, path []string, leafKind, value string) err
 	}
 	switch {
 	case fd.IsList():
+		isEvents := fd.Kind() == protoreflect.MessageKind && fd.Message().FullName() == "temporal.api.history.v1.HistoryEvent"
+		if vobTail && isEvents {
+			m.Mutable(fd).List().Append(protoreflect.ValueOfMessage(vobPlainEvent(1).ProtoReflect()))
+		}
 		el := m.Mutable(fd).List().AppendMutable().Message()
-		return vobBuild(el, path[1:], leafKind, value)
+		if err := vobBuild(el, path[1:], leafKind, value); err != nil {
+			return err
+		}
+		if vobTail && isEvents {
+			m.Mutable(fd).List().Append(protoreflect.ValueOfMessage(vobPlainEvent(9).ProtoReflect()))
+		}
+		return nil
 	case fd.IsMap():
 		mp := m.Mutable(fd).Map()
 		v := mp.NewValue()
@@ -231,7 +319,11 @@ func vobRead(m protoreflect.Message, path []string, leafKind string, set *string
 		if m.Get(fd).List().Len() == 0 {
 			return nil, fmt.Errorf("list %s empty", path[0])
 		}
-		return vobRead(m.Get(fd).List().Get(0).Message(), path[1:], leafKind, set)
+		idx := 0
+		if vobTail && fd.Kind() == protoreflect.MessageKind && fd.Message().FullName() == "temporal.api.history.v1.HistoryEvent" && m.Get(fd).List().Len() >= 2 {
+			idx = 1
+		}
+		return vobRead(m.Get(fd).List().Get(idx).Message(), path[1:], leafKind, set)
 	case fd.IsMap():
 		var sub protoreflect.Message
 		m.Get(fd).Map().Range(func(_ protoreflect.MapKey, v protoreflect.Value) bool { sub = v.Message(); return false })
@@ -260,8 +352,8 @@ type vobStream struct {
 	sent any
 }
 
-func (s *vobStream) SendMsg(m any) error { s.sent = m; return nil }
-func (s *vobStream) RecvMsg(m any) error { return nil }
+func (s *vobStream) SendMsg(m any) error      { s.sent = m; return nil }
+func (s *vobStream) RecvMsg(m any) error      { return nil }
 func (s *vobStream) Context() context.Context { return context.Background() }
 
 // vobTranslate pushes msg through the real interceptor code in the direction the root says and returns what the next
@@ -305,7 +397,7 @@ func vobTranslate(ic *TranslationInterceptor, r vobRoot, msg proto.Message) (pro
 }
 
 func vobRunACL(tr *TranslationInterceptor, acl *AccessControlInterceptor, ob vobOblig) map[string]interface{} {
-	rec := map[string]interface{}{"ev": "Acl", "id": ob.ID, "leaf": ob.Leaf, "service": ob.Root.Service, "method": ob.Root.Method, "type": ob.Root.Type,
+	rec := map[string]interface{}{"ev": "Acl", "variant": ob.Variant, "id": ob.ID, "leaf": ob.Leaf, "service": ob.Root.Service, "method": ob.Root.Method, "type": ob.Root.Type,
 		"path": ob.Path, "value": ob.Value, "bypass": ob.Bypass, "skipped": ob.Skipped, "reached": ob.Reached,
 		"denied": false, "forwarded": false, "seen": "", "err": "", "built": false}
 	defer func() {
@@ -373,10 +465,17 @@ func TestVerifSchemaObligations(t *testing.T) {
 	defer w.Flush()
 	enc := json.NewEncoder(w)
 	nsMap := map[string]string{vobNsLocal: vobNsRemote}
-	saMap := map[string]map[string]string{"ns-id": {vobSaLocal: vobSaRemote}}
+	saMap := map[string]map[string]string{"ns-id": {vobSaLocal: vobSaRemote, "sa-same": "sa-same"}}
 	ic := NewTranslationInterceptor(log.NewNoopLogger(), []Translator{
 		NewNamespaceNameTranslator(log.NewNoopLogger(), nsMap, nsMap),
 		NewSearchAttributeTranslator(log.NewNoopLogger(), saMap, saMap),
+	})
+	// C13: chained one-to-one mappings (a->b, b->c): every name / key is translated exactly one step
+	chainNs := map[string]string{"ns-a": "ns-b", "ns-b": "ns-c"}
+	chainSa := map[string]map[string]string{"ns-id": {"sa-a": "sa-b", "sa-b": "sa-c", "sa-same": "sa-same"}}
+	icChain := NewTranslationInterceptor(log.NewNoopLogger(), []Translator{
+		NewNamespaceNameTranslator(log.NewNoopLogger(), chainNs, chainNs),
+		NewSearchAttributeTranslator(log.NewNoopLogger(), chainSa, chainSa),
 	})
 	// C16: inbound chain = translation (remote names -> local names) then access control (allowed local names)
 	aclMap := map[string]string{"ns-remote-ok": "ns-allowed", "ns-remote-bad": "ns-forbidden"}
@@ -393,12 +492,35 @@ func TestVerifSchemaObligations(t *testing.T) {
 			t.Fatalf("bad obligation: %v", err)
 		}
 		if ob.Mode == "acl" {
+			vobTail, vobDirty = ob.Variant == "tail", false
 			_ = enc.Encode(vobRunACL(aclTr, acl, ob))
+			vobTail = false
 			continue
 		}
-		rec := map[string]interface{}{"ev": "Oblig", "id": ob.ID, "leaf": ob.Leaf, "service": ob.Root.Service, "dir": ob.Root.Dir,
+		useIC := ic
+		vobSaKeys = []string{vobSaLocal, vobSaOther, "sa-same"}
+		vobTail, vobDirty, vobFill = ob.Variant == "tail", ob.Variant == "dirty", ""
+		if ob.Variant == "fill" {
+			vobFill = "ns-unmapped-sibling"
+		}
+		if ob.Mode == "chain" {
+			useIC = icChain
+			vobSaKeys = []string{"sa-a", "sa-b", "sa-same"}
+		}
+		rec := map[string]interface{}{"ev": "Oblig", "mode": ob.Mode, "variant": ob.Variant, "id": ob.ID, "leaf": ob.Leaf, "service": ob.Root.Service, "dir": ob.Root.Dir,
 			"stream": ob.Root.Stream, "type": ob.Root.Type, "path": ob.Path, "reached": ob.Reached, "skipped": ob.Skipped, "inblob": ob.InBlob,
 			"in": []string{}, "out": []string{}, "err": "", "rest_equal": false, "built": false}
+		if ob.Variant == "dirty" {
+			for i, p := range ob.Path {
+				if p == "@blob" && !vobLegacyHas(ob.Path[i+1:len(ob.Path)-0]) {
+					rec["scope"] = "not-in-legacy-schema"
+				}
+			}
+			if rec["scope"] != nil {
+				_ = enc.Encode(rec)
+				continue
+			}
+		}
 		val := ob.Value
 		if val == "" {
 			val = vobNsLocal
@@ -420,13 +542,25 @@ func TestVerifSchemaObligations(t *testing.T) {
 			}
 			rec["built"] = true
 			orig := proto.Clone(m.Interface())
-			inVals, err := vobRead(m, ob.Path, ob.Leaf, nil)
+			readFrom := m
+			if vobDirty {
+				// the dirty blob cannot be decoded by the strict codec: what went in is read from a clean twin
+				vobDirty = false
+				twin, _ := vobNew(ob.Root.Type)
+				if err := vobBuild(twin, ob.Path, ob.Leaf, val); err != nil {
+					rec["err"] = "build: " + err.Error()
+					return
+				}
+				vobDirty = true
+				readFrom = twin
+			}
+			inVals, err := vobRead(readFrom, ob.Path, ob.Leaf, nil)
 			if err != nil {
 				rec["err"] = "read-in: " + err.Error()
 				return
 			}
 			rec["in"] = inVals
-			res, err := vobTranslate(ic, ob.Root, m.Interface())
+			res, err := vobTranslate(useIC, ob.Root, m.Interface())
 			if err != nil {
 				rec["err"] = "translate: " + err.Error()
 				return
@@ -438,7 +572,10 @@ func TestVerifSchemaObligations(t *testing.T) {
 			}
 			rec["out"] = outVals
 			// nothing else changed: put the original leaf back and compare with the original message
-			if strings.HasPrefix(ob.Leaf, "ns") {
+			if ob.Variant == "dirty" {
+				// what the repair does to the invalid field is C17/C18's subject; here: the blob decodes again and the leaf is judged
+				rec["rest_equal"] = true
+			} else if strings.HasPrefix(ob.Leaf, "ns") {
 				back := proto.Clone(res)
 				if _, err := vobRead(back.ProtoReflect(), ob.Path, ob.Leaf, &val); err == nil {
 					o2 := proto.Clone(orig)
@@ -450,5 +587,6 @@ func TestVerifSchemaObligations(t *testing.T) {
 			}
 		}()
 		_ = enc.Encode(rec)
+		vobTail, vobDirty, vobFill = false, false, ""
 	}
 }
